@@ -905,6 +905,22 @@ impl Sw {
     }
 }
 
+/// Readings between which the specification does not decide. These are not deviations: either value is a
+/// legitimate implementation, and a check accepts the outcome of each (consistently over a whole run).
+#[derive(Clone, Copy, Debug, PartialEq, Eq, Default)]
+pub struct Interp {
+    /// What a mark attachment (lookup types 4, 5, 6) does with the x/yPlacement the mark accumulated from value
+    /// records applied *before* the attachment. The GPOS chapter only says that the attachment aligns the mark
+    /// anchor with the base anchor; it does not say whether that alignment replaces or adds to an earlier
+    /// placement of the mark.
+    ///  * false: adjustments accumulate, the mark ends at base anchor - mark anchor + earlier placement;
+    ///  * true: the attachment defines the offset of the mark (HarfBuzz `MarkArray::apply` assigns
+    ///    `o.x_offset = base_x - mark_x`), so the earlier placement is discarded.
+    /// Placements applied *after* the attachment add to the attachment offset under both readings
+    /// (HarfBuzz `ValueFormat::apply_value`: `glyph_pos.x_offset += ...`), advances are never touched.
+    pub attach_overrides_placement: bool,
+}
+
 pub fn round_half_away(x: f64) -> i32 {
     if x >= 0.0 {
         (x + 0.5).floor() as i32
@@ -918,10 +934,20 @@ struct Env<'a> {
     gdef: &'a Gdef,
     coords: Option<&'a [i16]>,
     sw: Sw,
+    interp: Interp,
     run: &'a [GlyphIn],
 }
 
 impl<'a> Env<'a> {
+    /// record the attachment of a mark (see `Interp::attach_overrides_placement`)
+    fn attach_mark(&self, out: &mut PosOut, base: usize, base_anchor: (i32, i32), mark_anchor: (i32, i32)) {
+        out.attach = Attach::Mark { base, base_anchor, mark_anchor };
+        if self.interp.attach_overrides_placement {
+            out.x_pla = 0;
+            out.y_pla = 0;
+        }
+    }
+
     fn dev_delta(&self, d: &Dev) -> i32 {
         match (d, self.coords, self.gdef.store.as_ref()) {
             (Dev::Var { outer, inner }, Some(c), Some(s)) => round_half_away(s.delta(*outer, *inner, c)),
@@ -1133,8 +1159,7 @@ impl<'a> Env<'a> {
                         _ => unreachable!(),
                     };
                     if let Some((ba, ma)) = hit {
-                        outs[i].attach =
-                            Attach::Mark { base: j, base_anchor: self.anchor(ba), mark_anchor: self.anchor(ma) };
+                        self.attach_mark(&mut outs[i], j, self.anchor(ba), self.anchor(ma));
                         return Some(i + 1);
                     }
                 }
@@ -1155,11 +1180,7 @@ impl<'a> Env<'a> {
                             if let (Some(mi), Some(bi)) = (cov_index(mark1_cov, g), cov_index(mark2_cov, gb)) {
                                 let (cls, ma) = &marks[mi];
                                 if let Some(ba) = mark2s[bi].get(*cls as usize).and_then(|a| a.as_ref()) {
-                                    outs[i].attach = Attach::Mark {
-                                        base: j,
-                                        base_anchor: self.anchor(ba),
-                                        mark_anchor: self.anchor(ma),
-                                    };
+                                    self.attach_mark(&mut outs[i], j, self.anchor(ba), self.anchor(ma));
                                     return Some(i + 1);
                                 }
                             }
@@ -1333,7 +1354,20 @@ pub fn apply_gpos(
     run: &[GlyphIn],
     sw: Sw,
 ) -> Vec<PosOut> {
-    let env = Env { prog, gdef, coords, sw, run };
+    apply_gpos_interp(prog, gdef, features, coords, run, sw, Interp::default())
+}
+
+/// `apply_gpos` under a stated reading of the points the specification leaves open.
+pub fn apply_gpos_interp(
+    prog: &Gpos,
+    gdef: &Gdef,
+    features: &[u32],
+    coords: Option<&[i16]>,
+    run: &[GlyphIn],
+    sw: Sw,
+    interp: Interp,
+) -> Vec<PosOut> {
+    let env = Env { prog, gdef, coords, sw, interp, run };
     let mut outs = vec![PosOut::default(); run.len()];
     for tag in features {
         if let Some((_, idx)) = prog.features.iter().find(|f| f.0 == *tag) {
